@@ -6,8 +6,6 @@
 
 '''Merkle trees, branches, proofs and roots.'''
 
-from math import ceil, log
-
 from aiorpcx import Event
 
 from electrumx.lib.hash import double_sha256
@@ -33,7 +31,9 @@ class Merkle(object):
             raise TypeError('hash_count must be an integer')
         if hash_count < 1:
             raise ValueError('hash_count must be at least 1')
-        return ceil(log(hash_count, 2))
+        # Exact for every integer, unlike ceil(log(hash_count, 2)) which is off by one
+        # for e.g. 2**29 (too big) and 2**49 + 1 (too small)
+        return (hash_count - 1).bit_length()
 
     def branch_and_root(self, hashes, index, length=None, tsc_format=False):
         '''Return a (merkle branch, merkle_root) pair given hashes, and the
